@@ -60,6 +60,12 @@ HISTORY = {
     'R8-F': 'eighth round (area: Close / CloseNow state); caught at the first trial (close suite: CloseNow after a returned Close)',
     'R8-G': 'eighth round (area: readFramePayload short reads); caught at the first trial (control-frame payload split across transport reads)',
     'R8-H': 'eighth round (area: matching of Pongs by number instead of by payload); caught at the first trial (near-miss Pong payloads: zero padded)',
+    'R9-A': 'ninth round (area: ensureFlate, sender without context takeover); caught at the first trial (wire-out: streamed message with two chunks above the threshold)',
+    'R9-B': 'ninth round (area: compression decided at the first non-empty Write); caught at the first trial (wire-out: empty first chunk of a streamed message)',
+    'R9-C': 'ninth round (area: frame length compared with the read budget); caught at the first trial (wire-in: compressed payload longer than the limit that inflates to fewer bytes)',
+    'R9-D': 'ninth round (area: close-sent flag replaced by the last written opcode); caught at the first trial (close suite: a Pong between the Close frame and the echo)',
+    'R9-E': 'ninth round (area: bufio reader pool; early release when the read limit trips on a compressed message). First trial: MISSED — the pools suite always ran without a read limit → op `limit` (random histories and explicit ones: the limit trips in the middle of a compressed message, the connection is closed, the next two connections read in alternation); server role: `pools:foreign-bytes`; client role: the library recurses without bound (a connection reads its frames through the buffered reader of its own inflater) and the runtime kills the process with a fatal error, which the orchestrator now localises like a panic (`pools:library-panic`, the case as replay); the minimised histories are in `corpus/pools.cases`',
+    'R9-F': 'ninth round (area: payload accounting before the read); caught at the first trial (cut sweep: transport ends right after the header of the final frame)',
     'R2-C19': 'second round. Caught at the first trial, but only by chance (two wsjson cases of the same run happened to share the doubly pooled buffer): the final regression over all seeded changes missed it once → wsjson kind `overlap` (a rejected document, then two overlapping reads on other connections under GOMAXPROCS(1)) makes it deterministic',
     'R2-C04': 'second round, first trial: MISSED (the sweep of cut offsets used only 7-bit frame lengths) → header-region cut sweep over every length encoding and order (16-bit first on a fresh connection, after a 64-bit one, after a multiple of 256), both roles, both endings',
     'R2-C07': 'second round, first trial: MISSED (the suite always read a message to its end before the next one) → histories that start the next message after reading only a prefix of a small compressed one (`msgnf` / `plainnf`); the replay then reports `put-by-non-holder`',
@@ -73,7 +79,7 @@ HISTORY = {
 }
 print('| seeded change (property it breaks) | what it does | what it needs to show | confirmed | checks run on it → result (current machinery) | history |')
 print('|---|---|---|---|---|---|')
-for d in sorted(glob.glob(os.path.join(ROOT, 'seeded', 'C*'))) + sorted(glob.glob(os.path.join(ROOT, 'seeded', 'R2-C*'))) + sorted(glob.glob(os.path.join(ROOT, 'seeded', 'R3-*'))) + sorted(glob.glob(os.path.join(ROOT, 'seeded', 'R4-*'))) + sorted(glob.glob(os.path.join(ROOT, 'seeded', 'R5-*'))) + sorted(glob.glob(os.path.join(ROOT, 'seeded', 'R6-*'))) + sorted(glob.glob(os.path.join(ROOT, 'seeded', 'R7-*'))) + sorted(glob.glob(os.path.join(ROOT, 'seeded', 'R8-*'))):
+for d in sorted(glob.glob(os.path.join(ROOT, 'seeded', 'C*'))) + sorted(glob.glob(os.path.join(ROOT, 'seeded', 'R2-C*'))) + sorted(glob.glob(os.path.join(ROOT, 'seeded', 'R3-*'))) + sorted(glob.glob(os.path.join(ROOT, 'seeded', 'R4-*'))) + sorted(glob.glob(os.path.join(ROOT, 'seeded', 'R5-*'))) + sorted(glob.glob(os.path.join(ROOT, 'seeded', 'R6-*'))) + sorted(glob.glob(os.path.join(ROOT, 'seeded', 'R7-*'))) + sorted(glob.glob(os.path.join(ROOT, 'seeded', 'R8-*'))) + sorted(glob.glob(os.path.join(ROOT, 'seeded', 'R9-*'))):
     sid = os.path.basename(d)
     try:
         meta = json.load(open(os.path.join(d, 'meta.json')))
